@@ -323,6 +323,10 @@ Definition hasDefaultAudio (c : cfg) : bool := negb (Nat.eqb (count_default_audi
 Definition track_leading (c : cfg) (i : nat) (t : tcfg) : bool :=
   isVideo (t_kind t) || (negb (hasVideo c) && Nat.eqb i 0).
 
+(* isRendition := !track.isLeading || (!isVideo(track.Codec) && len(m.Tracks) > 1) *)
+Definition is_rend (c : cfg) (i : nat) (t : tcfg) : bool :=
+  negb (track_leading c i t) || (negb (isVideo (t_kind t)) && Nat.ltb 1 (length (c_tracks c))).
+
 Definition mk_stream (tracks : list nat) (isvideo : bool) (num : Z) (leading rendition dflt : bool)
            (name lang nextSeg : Z) : stream :=
   {| st_tracks := tracks; st_isvideo := isvideo; st_num := num; st_leading := leading;
@@ -337,8 +341,7 @@ Fixpoint mk_streams (c : cfg) (i : nat) (ts : list tcfg) (chosen : bool) (nextSe
   | [] => []
   | t :: ts' =>
       let leading := track_leading c i t in
-      let rendition := negb leading
-                       || (negb (isVideo (t_kind t)) && Nat.ltb 1 (length (c_tracks c))) in
+      let rendition := is_rend c i t in
       let '(dflt, chosen') :=
         if rendition then
           if negb (hasDefaultAudio c) then (negb chosen, true) else (t_default t, chosen)
@@ -814,11 +817,9 @@ Definition write_video (m : mstate) (ti : nat) (t : trk) (a : au) : wres :=
                      (sum4 u_tsize (a_units a)) (Some d) false
         | _ => fmp4WriteSample m2 ti (a_ra a) paramsChanged0 (video_sample a)
         end
-  | H265 | VP9 =>
+  | _ => (* H265, VP9, AV1 (AV1 gated since fix 'skip AV1 temporal units until the first random-access one') *)
       if negb (tk_firstRA t) && negb (a_ra a) then wok m1 else
       fmp4WriteSample (set_firstRA m1 ti) ti (a_ra a) paramsChanged0 (video_sample a)
-  | _ => (* AV1: no firstRandomAccessReceived gate *)
-      fmp4WriteSample m1 ti (a_ra a) paramsChanged0 (video_sample a)
   end.
 
 (* writeOpus / writeMPEG4Audio (fMP4): one sample per packet / AU *)
